@@ -403,6 +403,9 @@ func redactPipelineStage(stage interface{}, redactFieldNames bool, keyPath []str
 									newPipeline[i] = redactPipelineStage(stage, redactFieldNames, []string{}, isInSearchStage(stage))
 								}
 								newPipelineMap.Set(subK, newPipeline)
+							} else {
+								// not a sub-pipeline: keep the member, redacting what can be walked
+								newPipelineMap.Set(subK, redactPipelineStage(subV, redactFieldNames, []string{}, false))
 							}
 						}
 						newMap.Set(redactedKey, newPipelineMap)
